@@ -331,7 +331,7 @@ Fixpoint p_scalar (fuel : nat) (ver3 : bool) (input : str) {struct fuel} : optio
         let scalar : parser hval := p_scalar f true in
         (* hs_list *)
         let p_list : parser hval :=
-          por [ pmap (fun _ => VList []) blank_or_star;
+          por [ pmap (fun _ => VList []) (pthen (plit [91]) (pthen spaces (plit [93])));
                 pmap (fun x => VList (match x with Some l => l | None => [] end))
                      (pthen (plit [91]) (pthen spaces
                         (pbefore (popt (pdelimited scalar value_sep))
@@ -343,9 +343,9 @@ Fixpoint p_scalar (fuel : nat) (ver3 : bool) (input : str) {struct fuel} : optio
           por [ pmap (fun k => Some (k, VMarker)) p_id; pmap Some p_tagpair ] in
         let p_tags : parser (list (str * hval)) :=
           pmap (fun l => flat_map (fun o => match o with Some kv => [kv] | None => [] end) l)
-               (pmany (por [p_tag; pmap (fun _ => None) blank_or_star])) in
+               (pmany (por [p_tag; pmap (fun _ => None) (pspan1 is_sp)])) in
         let p_dict : parser hval :=
-          por [ pmap (fun _ => VDict []) blank_or_star;
+          por [ pmap (fun _ => VDict []) (pthen (plit [123]) (pthen spaces (plit [125])));
                 pmap (fun l => VDict (dict_of l))
                      (pthen (plit [123]) (pthen spaces (pbefore p_tags (pthen spaces (plit [125]))))) ] in
         let p_inner_grid : parser hval :=
